@@ -77,6 +77,23 @@ PROPS["C03"] = {
     ],
 }
 
+PROPS["C11"] = {
+    "level": "model_checking",
+    "technique": "explicit-state enumeration of complete tiny elliptic-curve groups over F_p^2 (full Cayley tables per coefficient class, every scalar in [-2r-3, 2r+3] for every routine) built with the real ep2_* code at 8-bit digits, plus point/scalar alphabet products on the BN_P256 / SM9_P256 twists including twist points outside G2, against an affine chord-and-tangent reference over F_p[u]/(u^2 - beta) on GMP",
+    "level_text": "Complete groups: curves over F_p^2 (p = 23, 29, 251) found by reference point counting are installed through the public ep2_curve_set API; on ~530-point curves (a = -3, 0, 1, 2, one-digit, general; an even-order curve with order-two points; p = 1 mod 4) the complete Cayley table is run through every addition/doubling formula (affine, projective, Jacobian) in every operand representation and alias pattern; on 16-bit prime-order curves every scalar in [-2r-3, 2r+3] through every variable-base, fixed-base, generator, digit and simultaneous routine. "
+                  "On the 256-bit twists: G2 members and twist points outside G2 (x = i + j u lifted by reference square root), scalar alphabet incl. GLS boundary values, the Frobenius endomorphism (eigenvalue p on G2, additivity, characteristic equation psi^2 - [t]psi + [p] = 0 on every enumerated twist point, powers 1..4) and cofactor clearing ([r]R' = identity, R' = identity only if [h]R is).",
+    "level_note": "Trusted: ref_ec2.h (F_p^2 by definition with beta = u^2 learned from the library and validated as a non-residue), harness glue. Tiny curves have no twist structure, so Frobenius-based routines (ep2_frb, GLS recodings, fast cofactor clearing) are judged at 256 bits only. Recoding-based multiplications (lwnaf, lwreg, fixed-base) are judged on points of the order-r subgroup (they reduce the scalar modulo r). Curves over cubic/quartic/octic extensions (ep3/ep4/ep8) are not driven: their pairing families need separate field-size builds and a reference over those towers; listed as not reached.",
+    "rule": "cases are (curve, operation group, points, scalars); tiny worlds: complete point lists / scalar ranges by odometer; W64: alphabet products; all cases non-trivial; distinct by 64-bit hash; transitions = individual routine results compared with the reference.",
+    "assumptions": ["reference group law in ref_ec2.h", "calls inside RLC_TRY", "DRBG/RNG re-seeded identically before every randomised routine"],
+    "jobs": [
+        {"name": "ep2-w8", "world": "W8", "src": "props/C11_ep2.c", "share": 0.6},
+        {"name": "ep2-w64", "world": "W64", "src": "props/C11_ep2.c"},
+        {"name": "ep2-w8-jacob", "world": "W8-jacob", "src": "props/C11_ep2.c", "tiers": ("thorough",)},
+        {"name": "ep2-w8-basic", "world": "W8-basic", "src": "props/C11_ep2.c", "tiers": ("thorough",)},
+        {"name": "ep2-w64-381", "world": "W64-381", "src": "props/C11_ep2.c", "tiers": ("thorough",)},
+    ],
+}
+
 PROPS["C07"] = {
     "level": "model_checking",
     "technique": "exhaustive enumeration of complete byte-string spaces given to the real decoders in the tiny build (every string of length 0..2/3 for integers, every 2-byte string per prime, every 1- and 3-byte string and structured 5-byte strings per tiny curve, every short text x every radix), tag x length x coordinate alphabets at shipped sizes, against a reference validity predicate and canonical encoder written from the format definition",
